@@ -196,8 +196,9 @@ def cmd_check(pid, tier, seed):
         "wall_s": round(wall, 2),
         "violations": len(violations),
     }
-    os.makedirs(os.path.join(ROOT, "evidence"), exist_ok=True)
-    with open(os.path.join(ROOT, "evidence", f"{pid}.json"), "w") as f:
+    evdir = os.environ.get("VERIF_EVIDENCE_DIR") or os.path.join(ROOT, "evidence")   # (the override is only used by the mutant runner)
+    os.makedirs(evdir, exist_ok=True)
+    with open(os.path.join(evdir, f"{pid}.json"), "w") as f:
         json.dump(evidence, f, indent=1, default=str)
     for l in out_lines:
         print(l)
